@@ -94,5 +94,8 @@ BodyClean == \A i \in 0..(N - 1) : prog[i + 1].k = "B" =>
                 /\ \A j \in (t + 1)..(i - 1) : ~Writes(prog[j + 1], prog[i + 1].d)
 Budget == /\ \A i \in 0..(N - 1) : count[i] <= 3
 Terminates == pc = N \/ ENABLED Step
+\* liveness: under weak fairness of the step relation every run reaches the end of the program
+FairSpec == Spec /\ WF_vars(Step)
+EventuallyDone == <>(pc = N)
 ASSUME Lemma /\ TwoTakesPossible /\ LemmaNeedsClearedBit
 =============================================================================
